@@ -65,6 +65,18 @@ def scenarios(tier):
                     if gi == 4 and delete:
                         continue
                 out.append(dict(base, budget=budget, torn="coarse"))
+    # the per-variation workflow: simulate(0), simulate(1) as separate processes, then simulate() assembles
+    out.append(dict(kind="resume", lengths={"b": 2}, rep_max=3, fmt="res", delete=False, keep=["true", 0],
+                    variant="same", budget=[2, 1, 1] if thorough else [1, 1, 1], torn="coarse", calls="all",
+                    plan=["single:0", "single:1", "all"]))
+    out.append(dict(kind="resume", lengths={"b": 2}, rep_max=2, fmt="res.json", delete=True, keep=["true", 0],
+                    variant="same", budget=[1, 0, 1], torn="coarse", calls="all",
+                    plan=["single:1", "all"]))
+    # a second simulate() on the SAME runner object after completion (partial files kept / deleted)
+    for delete in (False, True):
+        out.append(dict(kind="resume", lengths={"b": 2}, rep_max=2, fmt="res", delete=delete, keep=["true", 0],
+                        variant="same", budget=[1, 1, 1], torn="coarse", calls="all",
+                        plan=["all", "all_same_runner"]))
     # early stop rule: resume must re-evaluate it on the loaded results
     out.append(dict(kind="resume", lengths={"b": 2}, rep_max=4, fmt="res", delete=False, keep=["rep", 3],
                     variant="same", budget=[1, 1, 1], torn="coarse", calls="all"))
@@ -217,11 +229,17 @@ def execute(sc, ctx, chk):
         if hasattr(RES, "os"):
             patches.append((RES, "os", osw))
         with seams.patched(*patches):
-            for run_no in range(6):
+            # plan = sequence of steps; a crashed step is retried by a fresh runner (= restarted process)
+            plan = sc.get("plan") or ["all"]
+            step = 0
+            runner = None
+            for run_no in range(8):
                 S.run_no = run_no
                 S.in_run_call = 0
                 S.calls_this_run = []
-                runner, pd, unpacked, rep_max = make_runner(sc, S, run_no)
+                mode = plan[step]
+                if not (mode == "all_same_runner" and runner is not None):
+                    runner, pd, unpacked, rep_max = make_runner(sc, S, run_no)
                 vars_ = RM.variations(RM._plain(pd) if run_no == 0 or sc["variant"] != "unpacked_array_other_shape"
                                       else {"b": [0, 1]}, unpacked)
                 nvar = len(vars_)
@@ -232,12 +250,19 @@ def execute(sc, ctx, chk):
                 foreign = sc["kind"] == "foreign" and run_no >= 1
                 before_img = S.fs.image() if foreign else None
                 try:
-                    runner.simulate()
+                    if mode.startswith("single:"):
+                        runner.simulate(int(mode[7:]))
+                    else:
+                        runner.simulate()
                     status = "completed"
                 except crashfs.Crash:
                     status = "crashed"
+                    runner = None
                 except BaseException as e:  # noqa
                     status = ("raised", e)
+                if status == "completed" and step < len(plan) - 1:
+                    step += 1
+                    continue
                 case = dict(scenario=sc, choices=list(ctx.choices))
                 if status == "crashed":
                     continue
@@ -255,7 +280,7 @@ def execute(sc, ctx, chk):
                     return ("restart_failed", type(e).__name__, tuple(sorted(set(paths))))
                 judge_completed(sc, S, chk, case, runner, dur, idxs, rep_max, run_no)
                 return ("completed", run_no, tuple(sorted(set(paths))))
-            chk.fail(("no_progress",), case, observed="6 runs without completion", expected="completion")
+            chk.fail(("no_progress",), case, observed="8 runs without completion", expected="completion")
             return ("no_progress",)
     finally:
         os.chdir(cwd0)
@@ -422,7 +447,7 @@ def explore_scenario(sc, chk):
 
 def _key(sc):
     return (tuple(sorted(sc["lengths"].items())), sc["rep_max"], sc["fmt"], sc["delete"], sc["variant"],
-            tuple(sc["keep"]))
+            tuple(sc["keep"]), tuple(sc.get("plan") or ()), sc["torn"], tuple(sc["budget"]))
 
 
 def main(chk):
